@@ -120,6 +120,8 @@ def classify(ctx, sc, tr):
         kinds.add("idle_gap")
     for k in kinds:
         ctx.count(k)
+    if kinds:
+        ctx.count_case()
     return kinds
 
 
